@@ -9,7 +9,8 @@ contract(Q + 'validate_day', params=dict(year=INT, month=INT, day=INT), returns=
          ensures=['result == valid_day(year, month, day)'], properties=['C18'])
 contract(Q + 'validate_week', params=dict(year=INT, week=INT), returns=BOOL,
          requires=['year >= 1'],
-         ensures=['result == valid_week(year, week)'], properties=['C18', 'C08'])
+         ensures=['result == valid_week(year, week)'], properties=['C18', 'C08'],
+         kf_region='week == 53 and 1 <= p_dec31(year) <= 3', kf_id='C18-week53-lenient')
 contract(Q + 'validate_month', params=dict(month=INT), returns=BOOL,
          ensures=['result == (1 <= month <= 12)'], properties=['C18'])
 contract(Q + 'validate_year', params=dict(year=INT), returns=BOOL,
@@ -18,3 +19,11 @@ contract(Q + 'validate_hour', params=dict(hour=INT), returns=BOOL,
          ensures=['result == (0 <= hour <= 23)'], properties=['C18'])
 contract(Q + 'validate_minutes', params=dict(minutes=INT), returns=BOOL,
          ensures=['result == (0 <= minutes <= 59)'], properties=['C18'])
+
+OptStr = TOpt(STR)
+NumTup = TSeq(REAL)
+contract(Q + 'parse_value', params=dict(itype=STR, value=OptStr), returns=TOpt(NumTup),
+         ensures=['result == html_value(itype, value)'],
+         locals=dict(parsed=TOpt(NumTup)),
+         kf_region="itype == 'week' and (not is_none(value)) and week53_lenient(value)", kf_id='C18-week53-lenient',
+         properties=['C18', 'C08'])
